@@ -93,19 +93,24 @@ Definition instant_of_text (s : ustring) : option Z :=
 
 (* spec names -> value plausibility (case-insensitive hexadecimal of the algorithm's length) *)
 Definition strict_hexlen (n : nat) (s : ustring) : bool := forallb is_hexdigit s && Nat.eqb (List.length s) n.
+(* the value rule is chosen by the algorithm the name denotes (names compare without hyphens and case,
+   as the vocabularies of the two versions spell them differently: "ssdeep" / "SSDEEP") *)
 Definition valid_hash_value (name : ustring) (v : ustring) : bool :=
-  let is (n : string) := ustr_eqb name (u n) in
-  if is "MD5"%string then strict_hexlen 32 v
-  else if is "SHA-1"%string then strict_hexlen 40 v
-  else if is "SHA-224"%string || is "SHA3-224"%string then strict_hexlen 56 v
-  else if is "SHA-256"%string || is "SHA3-256"%string then strict_hexlen 64 v
-  else if is "SHA-384"%string || is "SHA3-384"%string then strict_hexlen 96 v
-  else if is "SHA-512"%string || is "SHA3-512"%string || is "WHIRLPOOL"%string then strict_hexlen 128 v
-  else if is "RIPEMD-160"%string then strict_hexlen 40 v
-  else if is "TLSH"%string then strict_hexlen 70 v
-  else if is "MD6"%string then forallb is_hexdigit v && existsb (Nat.eqb (List.length v)) [32; 40; 56; 64; 96; 128]%nat
-  else if is "SSDEEP"%string then forallb is_ssdeep_char v && Nat.leb 1 (List.length v) && Nat.leb (List.length v) 128
-  else true.
+  match infer_hash name with
+  | None => true
+  | Some alg =>
+    let is (n : string) := ustr_eqb alg (u n) in
+    if is "MD5"%string then strict_hexlen 32 v
+    else if is "SHA1"%string || is "RIPEMD160"%string then strict_hexlen 40 v
+    else if is "SHA224"%string || is "SHA3224"%string then strict_hexlen 56 v
+    else if is "SHA256"%string || is "SHA3256"%string then strict_hexlen 64 v
+    else if is "SHA384"%string || is "SHA3384"%string then strict_hexlen 96 v
+    else if is "SHA512"%string || is "SHA3512"%string || is "WHIRLPOOL"%string then strict_hexlen 128 v
+    else if is "TLSH"%string then strict_hexlen 70 v
+    else if is "MD6"%string then forallb is_hexdigit v && existsb (Nat.eqb (List.length v)) [32; 40; 56; 64; 96; 128]%nat
+    else if is "SSDEEP"%string then forallb is_ssdeep_char v && Nat.leb 1 (List.length v) && Nat.leb (List.length v) 128
+    else true
+  end.
 
 Definition number_in_bounds (mn mx : option Z) (j : jvalue) : bool :=
   let me := match j with
